@@ -110,6 +110,8 @@ def h_exit_midrun(e, mnems, mode, k):
     from symx.state import mk_riscv, place_instructions
     from architecture_simulator.simulation.runtime_errors import InstructionExecutionException
 
+    if any(m == "ecall" for m in mnems) and e.mode == "sym":
+        e.site_bounds["process_ecall"] = progs.ECALL_SITE_BOUND
     items, fields = progs.build_program(e, mnems)
     a = mk_riscv(e, mode=mode)
     place_instructions(e, a, items)
